@@ -1,5 +1,389 @@
-import CachedModel
+/-
+  C02  Reads return only the current value of the key, never stale or foreign.
+
+  Statements about Layer A (`CachedModel/State.lean`: every API call runs its caller-side program atomically; the
+  worker, the sweeper and the access consumer take their own steps), for every state, key, oracle, configuration
+  (in particular every key-hash function `Cfg.hashOf`: the hash only feeds the admission sketch, it never indexes
+  the store).
+
+    * `C02_read_is_current_entry`   a read of `k` returns `visible s k`: the value of the entry stored under `k` iff
+                                    that entry is neither soft-deleted nor past its deadline, else absent; the read
+                                    changes nothing but statistics, access buffers and the buffer channel;
+      `C02_variants_agree`, `C02_get_is_read`, `C02_multi_get_is_reads`, `C02_multi_get_pointwise`
+                                    `get` and every element of `multi_get` are this one function;
+    * `C02_only_written_values`     (ghost history `ReachW`) a value read for `k` was written TO `k` by a put or an
+                                    upsert issued before the read: never another key's value, never a value nobody
+                                    wrote (`C02_get_only_written`, `C02_multi_get_only_written`: through the API);
+    * `C02_completed_overwrite_visible`  once an in-place upsert carrying a value has returned — whatever it
+                                    returned — every read returns the new value (or absent, later, when its deadline
+                                    has passed), never the superseded one;
+      `C02_completed_delete_visible` / `C02_delete_hidden_on_return` / `C02_deleted_never_read_again` /
+      `C02_absent_until_worker_put`  a deleted value is never read again;
+    * `C02_value_stable`            the only event that changes the value of a present entry is an upsert of that key
+                                    carrying a value; `C02_worker_put_never_overwrites`.
+
+  Helper lemmas: `CachedProofs/Lemmas/Frame.lean` (`visible`, `OnlyRead`, `KeyCh`/`step_key`, `Written`/`ReachW`).
+-/
+import CachedProofs.Lemmas.Frame
+import CachedProofs.Properties.C04
+import CachedProofs.Properties.C07
+import CachedProofs.Properties.C08
+import CachedProofs.Properties.C09
 
 namespace Cached
+
+/-! ### 1. a read returns the current entry of the key -/
+
+/-- **A read returns the value of the entry currently stored under this key, or absent.**
+    `some v` exactly when the entry of `k` holds `v` and is alive (not soft-deleted, deadline not passed);
+    `none` exactly when `k` is absent, soft-deleted or past its deadline.  The read itself changes neither the store
+    nor the weights, the expiry index, the command queue, the acknowledgements, the clock, … : only statistics,
+    the pool of access buffers and the buffer channel (`OnlyRead`). -/
+theorem C02_read_is_current_entry (s s' : State) (k : Nat) (o o' : Oracle) (r : Option Nat)
+    (hr : readKey s k o = .ok (s', r, o')) :
+    r = visible s k ∧
+    (∀ v, r = some v ↔ ∃ e, s.store.get? k = some e ∧ e.value = v ∧ e.alive s.now = true) ∧
+    (r = none ↔ s.store.get? k = none ∨
+      ∃ e, s.store.get? k = some e ∧ (e.soft = true ∨ ∃ x, e.expiry = some x ∧ s.now > x)) ∧
+    (s'.store = s.store ∧ s'.adm = s.adm ∧ s'.ttl = s.ttl ∧ s'.queue = s.queue ∧ s'.acks = s.acks ∧
+      s'.now = s.now ∧ s'.nextId = s.nextId ∧ s'.pend = s.pend ∧ s'.worker = s.worker ∧ s'.cfg = s.cfg ∧
+      s'.lfu = s.lfu ∧ s'.shutting = s.shutting) ∧
+    OnlyRead s s' := by
+  obtain ⟨hv, hro⟩ := readKey_spec hr
+  obtain ⟨f1, f2, f3, f4, f5, f6, f7, f8, f9, f10, f11, f12, _⟩ := hro.fields
+  refine ⟨hv, ?_, ?_, ⟨f1, f2, f3, f4, f5, f6, f7, f8, f9, f10, f11, f12⟩, hro⟩
+  · intro v; rw [hv]; exact visible_eq_some_iff s k v
+  · rw [hv]; exact visible_eq_none_iff s k
+
+/-- conversely, a live entry IS returned by every read that completes (a read fails to complete only when the
+    oracle supplies no legal buffer index) -/
+theorem C02_live_entry_is_read (s s' : State) (k : Nat) (o o' : Oracle) (r : Option Nat) (e : Entry)
+    (hk : s.store.get? k = some e) (ha : e.alive s.now = true) (hr : readKey s k o = .ok (s', r, o')) :
+    r = some e.value := by
+  rw [(readKey_spec hr).1]
+  exact (visible_eq_some_iff s k e.value).mpr ⟨e, hk, rfl, ha⟩
+
+/-- `get` and `multi_get` of one key are `readKey` (from C09) -/
+theorem C02_variants_agree (s : State) (k : Nat) (o : Oracle) (hs : s.shutting = false) :
+    clientGet s k o = (match readKey s k o with | .ok (s1, v, o') => .ok (s1, .value v, o') | .error m => .error m) ∧
+    clientMultiGet s [k] o = (match readKey s k o with | .ok (s1, v, o') => .ok (s1, .values [v], o') | .error m => .error m) :=
+  C09_variants_agree s k o hs
+
+/-- `get` returns `visible s k` (absent while shutting down) and changes only statistics / access buffers -/
+theorem C02_get_is_read (s s' : State) (k : Nat) (o o' : Oracle) (out : Out)
+    (h : step s (.get k) o = .ok (s', out, o')) :
+    out = .value (if s.shutting then none else visible s k) ∧ OnlyRead s s' := by
+  have := clientGet_spec (s := s) (k := k) (o := o) h
+  exact ⟨this.2, this.1⟩
+
+/-- `multi_get` returns, in order, `visible s` of each key: all elements are read off the same store at the same
+    clock value (nothing during the call changes either) -/
+theorem C02_multi_get_is_reads (s s' : State) (ks : List Nat) (o o' : Oracle) (out : Out)
+    (h : step s (.multiGet ks) o = .ok (s', out, o')) :
+    out = .values (if s.shutting then [] else ks.map (visible s)) ∧ OnlyRead s s' := by
+  have := clientMultiGet_spec (s := s) (ks := ks) (o := o) h
+  exact ⟨this.2, this.1⟩
+
+/-- **The n-key statement**: the `i`-th result of `multi_get ks` is what `readKey` returns for `ks[i]` in the state
+    reached after the first `i` reads, and that state differs from `s` only in `stats`, `pool`, `bufq` — hence the
+    result equals `visible s ks[i]`. -/
+theorem C02_multi_get_pointwise (s s' : State) (ks : List Nat) (o o' : Oracle) (out : Out) (hsh : s.shutting = false)
+    (h : clientMultiGet s ks o = .ok (s', out, o')) :
+    ∃ vs, out = .values vs ∧ vs.length = ks.length ∧ OnlyRead s s' ∧
+      ∀ (i k : Nat), ks[i]? = some k →
+        ∃ si oi si' oi' r, OnlyRead s si ∧ readKey si k oi = .ok (si', r, oi') ∧ vs[i]? = some r ∧
+          r = visible s k := by
+  unfold clientMultiGet at h
+  simp only [hsh, Bool.false_eq_true, if_false] at h
+  split at h
+  · rename_i s1 vs o1 hk
+    simp only [Except.ok.injEq, Prod.mk.injEq] at h
+    obtain ⟨rfl, rfl, _⟩ := h
+    obtain ⟨hvs, hro⟩ := readKeys_spec _ _ _ _ _ _ _ hk
+    refine ⟨vs, rfl, by rw [hvs]; simp, hro, ?_⟩
+    intro i k hi
+    obtain ⟨si, oi, si', oi', r, h1, h2, h3⟩ := readKeys_pointwise _ _ _ _ _ _ _ hk i k hi
+    refine ⟨si, oi, si', oi', r, h1, h2, by simpa using h3, ?_⟩
+    rw [(readKey_spec h2).1, h1.visible]
+  · cases h
+
+/-! ### 2. only values written to this key -/
+
+/-- **A read never returns another key's value or a value nobody wrote.**  Along every history from the initial
+    state, with `W` the list of all (key, value) pairs written so far by `put`, `put_with_weight`, `put_with_ttl`,
+    `put_with_weight_and_ttl` and `put_or_update` carrying a value (each such call began — indeed ran its
+    caller-side part — before the read): a value `v` read for `k` satisfies `(k, v) ∈ W`.
+    For every configuration, in particular every hash function. -/
+theorem C02_only_written_values {cfg : Cfg} {now : Nat} {seeds : List Nat} {s s' : State} {W : List (Nat × Nat)}
+    {k v : Nat} {o o' : Oracle} (h : ReachW cfg now seeds s W) (hr : readKey s k o = .ok (s', some v, o')) :
+    (k, v) ∈ W := by
+  obtain ⟨e, he, _, hv⟩ := readable_present s s' k o o' v hr
+  rw [← hv]
+  exact (written_reach h).1 k e he
+
+/-- … through `get` -/
+theorem C02_get_only_written {cfg : Cfg} {now : Nat} {seeds : List Nat} {s s' : State} {W : List (Nat × Nat)}
+    {k v : Nat} {o o' : Oracle} (h : ReachW cfg now seeds s W)
+    (hs : step s (.get k) o = .ok (s', .value (some v), o')) : (k, v) ∈ W := by
+  obtain ⟨hout, _⟩ := C02_get_is_read s s' k o o' _ hs
+  simp only [Out.value.injEq] at hout
+  split at hout
+  · cases hout
+  · obtain ⟨e, he, hv, _⟩ := (visible_eq_some_iff s k v).mp hout.symm
+    rw [← hv]
+    exact (written_reach h).1 k e he
+
+/-- … through `multi_get`: the `i`-th result, if present, was written to the `i`-th key -/
+theorem C02_multi_get_only_written {cfg : Cfg} {now : Nat} {seeds : List Nat} {s s' : State} {W : List (Nat × Nat)}
+    {ks : List Nat} {vs : List (Option Nat)} {o o' : Oracle} (h : ReachW cfg now seeds s W)
+    (hs : step s (.multiGet ks) o = .ok (s', .values vs, o')) :
+    ∀ (i k v : Nat), ks[i]? = some k → vs[i]? = some (some v) → (k, v) ∈ W := by
+  intro i k v hi hv
+  obtain ⟨hout, _⟩ := C02_multi_get_is_reads s s' ks o o' _ hs
+  simp only [Out.values.injEq] at hout
+  split at hout
+  · subst hout; simp at hv
+  · subst hout
+    simp only [List.getElem?_map, hi, Option.map_some, Option.some.injEq] at hv
+    obtain ⟨e, he, hval, _⟩ := (visible_eq_some_iff s k v).mp hv
+    rw [← hval]
+    exact (written_reach h).1 k e he
+
+/-! ### 3. completed overwrites and deletes are visible -/
+
+/-- **A completed overwrite is visible.**  `put_or_update(k, value := vnew, …)` on a physically present key has
+    returned — an acknowledgement, "parked", a send error, or a weight panic, whatever: the entry of `k` now holds
+    `vnew`, so every read of `k`, now or at any later clock value, in any state that still holds this entry,
+    returns `vnew` or absent — never the superseded value; and if the key was readable, every read right after the
+    call returns exactly `vnew`.  (`hov`: `now + ttl` is representable; otherwise the call panics before touching
+    anything, `C08_fieldwise_time_overflow`.) -/
+theorem C02_completed_overwrite_visible (s : State) (c k vnew : Nat) (w : Option Int) (ttl : Option Nat) (rm : Bool)
+    (e : Entry) (hsh : s.shutting = false) (hk : s.store.get? k = some e)
+    (hov : ∀ t, ttl = some t → rm = false → ∃ x, addTime s.now t = some x) :
+    (∃ e', (clientUpsert s c k (some vnew) w ttl rm).1.store.get? k = some e' ∧ e'.value = vnew ∧ e'.id = e.id) ∧
+    (∀ (s1 s2 : State) (o o' : Oracle) (r : Option Nat),
+      s1.store.get? k = (clientUpsert s c k (some vnew) w ttl rm).1.store.get? k →
+      readKey s1 k o = .ok (s2, r, o') → r = some vnew ∨ r = none) ∧
+    (e.alive s.now = true → ∀ (s2 : State) (o o' : Oracle) (r : Option Nat),
+      readKey (clientUpsert s c k (some vnew) w ttl rm).1 k o = .ok (s2, r, o') → r = some vnew) := by
+  obtain ⟨⟨e', hget, hid, _, hval, _⟩, _, _, _⟩ := C08_fieldwise s c k (some vnew) w ttl rm e hsh hk hov
+  simp only [Option.getD_some] at hval
+  refine ⟨⟨e', hget, hval, hid⟩, ?_, ?_⟩
+  · intro s1 s2 o o' r hst hr
+    rw [(readKey_spec hr).1]
+    unfold visible
+    rw [hst, hget]
+    dsimp only
+    split
+    · exact Or.inl (by rw [hval])
+    · exact Or.inr rfl
+  · intro halive s2 o o' r hr
+    have := C08_not_lost_partial s c k (some vnew) w ttl rm e hsh hk halive hov o o' s2 r hr
+    simpa using this
+
+/-- **A delete hides the key from the moment `delete(k)` returns** (whatever it returns, before the worker has seen
+    the command): every read reports absent.  (C04.) -/
+theorem C02_delete_hidden_on_return (s : State) (c k : Nat) (e : Entry) (hsh : s.shutting = false)
+    (hk : s.store.get? k = some e) :
+    visible (clientDelete s c k).1 k = none ∧
+    ∀ (s2 : State) (o o' : Oracle) (r : Option Nat),
+      readKey (clientDelete s c k).1 k o = .ok (s2, r, o') → r = none := by
+  obtain ⟨hst, _, _⟩ := C04_hidden_at_once s c k e hsh hk
+  have hv : visible (clientDelete s c k).1 k = none := by
+    unfold visible
+    rw [hst]
+    simp [Entry.alive]
+  exact ⟨hv, fun s2 o o' r hr => by rw [(readKey_spec hr).1, hv]⟩
+
+/-- … and for ever: along every sequence of events after the delete returned, a value read for `k` comes from an
+    entry with ANOTHER id — a later put — never from the deleted one. (C04.) -/
+theorem C02_deleted_never_read_again {s s' : State} (hi : Inv s) (c k : Nat) (e : Entry) (hsh : s.shutting = false)
+    (hk : s.store.get? k = some e) (l : List (Ev × Oracle)) (hr : runEvents (clientDelete s c k).1 l = .ok s') :
+    ∀ (o o' : Oracle) (s'' : State) (v : Nat), readKey s' k o = .ok (s'', some v, o') →
+      ∃ e', s'.store.get? k = some e' ∧ e'.id ≠ e.id ∧ e'.value = v := by
+  obtain ⟨hst, _, _⟩ := C04_hidden_at_once s c k e hsh hk
+  have hi' : Inv (clientDelete s c k).1 := inv_clientDelete hi c k
+  exact (C04_never_read_again hi' hst rfl l hr).2
+
+/-- **A completed delete is visible.**  The worker executes `Delete(k)`: afterwards `k` is physically absent and
+    every read reports absent. -/
+theorem C02_completed_delete_visible (s : State) (o : Oracle) (k : Nat) (h : Option Nat) (q : List (Cmd × Option Nat))
+    (hw : s.worker = .running) (hq : s.queue = (.delete k, h) :: q) :
+    ∃ s' st, step s .worker o = .ok (s', .worked "Delete" st none [] [], o) ∧
+      (st = .accepted ↔ (s.store.get? k).isSome = true) ∧
+      s'.store.get? k = none ∧ visible s' k = none ∧
+      ∀ (s2 : State) (o1 o2 : Oracle) (r : Option Nat), readKey s' k o1 = .ok (s2, r, o2) → r = none := by
+  have hstep : step s .worker o = workerFinish h "Delete" (workerDelete { s with queue := q } k, o) := by
+    show workerStep s o = _
+    rw [workerStep_running s o (.delete k) h q hw hq]
+  have fin : ∀ s1 st, workerDelete { s with queue := q } k = .done s1 st none [] [] → s1.store.get? k = none →
+      (st = .accepted ↔ (s.store.get? k).isSome = true) →
+      ∃ s' st, step s .worker o = .ok (s', .worked "Delete" st none [] [], o) ∧
+        (st = .accepted ↔ (s.store.get? k).isSome = true) ∧
+        s'.store.get? k = none ∧ visible s' k = none ∧
+        ∀ (s2 : State) (o1 o2 : Oracle) (r : Option Nat), readKey s' k o1 = .ok (s2, r, o2) → r = none := by
+    intro s1 st h1 h2 h3
+    have hv : visible { s1 with acks := setAck s1.acks h st } k = none := by
+      unfold visible
+      show (match s1.store.get? k with | some e => _ | none => none) = none
+      rw [h2]
+    refine ⟨{ s1 with acks := setAck s1.acks h st }, st, ?_, h3, h2, hv, ?_⟩
+    · rw [hstep, h1]; rfl
+    · intro s2 o1 o2 r hr
+      rw [(readKey_spec hr).1, hv]
+  cases hk : s.store.get? k with
+  | none =>
+    have h1 := C04_absent_rejected { s with queue := q } k hk
+    have := fin _ _ h1 hk (by simp [hk])
+    rw [hk] at this
+    exact this
+  | some e =>
+    obtain ⟨s1, h1, h2, _⟩ := C04_released { s with queue := q } k e hk
+    have := fin _ _ h1 h2 (by simp [hk])
+    rw [hk] at this
+    exact this
+
+/-- … and `k` stays absent until a worker step executes a put of `k` (the only event that makes an absent key
+    present), whose value is then the one stored. -/
+theorem C02_absent_until_worker_put {s s' : State} {ev : Ev} {o o' : Oracle} {out : Out} {k : Nat} {e' : Entry}
+    (hs : step s ev o = .ok (s', out, o')) (hk : s.store.get? k = none) (hk' : s'.store.get? k = some e') :
+    ev = .worker ∧ s.worker = .running ∧
+    ∃ id hash w v h q, (s.queue = (.put id hash w k v, h) :: q ∨ ∃ t, s.queue = (.putTtl id hash w k v t, h) :: q) ∧
+      e'.value = v ∧ e'.id = id ∧ e'.soft = false := by
+  cases step_key hs k with
+  | same h1 => rw [h1, hk] at hk'; cases hk'
+  | upsert c v w t rm e e1 _ h0 => rw [hk] at h0; cases h0
+  | softDelete c e _ h0 => rw [hk] at h0; cases h0
+  | workerDelete hh q _ _ _ h1 => rw [h1] at hk'; cases hk'
+  | evicted id hash w k0 v hh q _ _ _ _ h1 => rw [h1] at hk'; cases hk'
+  | inserted id hash w v hh q entry hev hw hq _ h1 i1 i2 i3 =>
+    rw [h1] at hk'
+    simp only [Option.some.injEq] at hk'
+    subst hk'
+    exact ⟨hev, hw, id, hash, w, v, hh, q, hq, i2, i1, i3⟩
+  | swept evs _ _ h1 => rw [h1] at hk'; cases hk'
+  | shutdown c _ _ h1 => rw [h1] at hk'; cases hk'
+  | resumedShutdown c _ _ h1 => rw [h1] at hk'; cases hk'
+
+/-! ### 4. the value of a present entry -/
+
+/-- **The only event that changes the value of a present entry is an upsert of that key carrying a value**;
+    the new value is the one the upsert carries and the entry keeps its id. -/
+theorem C02_value_stable {s s' : State} {ev : Ev} {o o' : Oracle} {out : Out} {k : Nat} {e e' : Entry}
+    (hs : step s ev o = .ok (s', out, o')) (hk : s.store.get? k = some e) (hk' : s'.store.get? k = some e')
+    (hne : e'.value ≠ e.value) :
+    ∃ c v w t rm, ev = .upsert c k (some v) w t rm ∧ e'.value = v ∧ e'.id = e.id := by
+  cases step_key hs k with
+  | same h1 =>
+    rw [h1, hk] at hk'
+    simp only [Option.some.injEq] at hk'
+    subst hk'
+    exact absurd rfl hne
+  | upsert c v w t rm e0 e1 hev h0 h1 i1 i2 i3 =>
+    rw [hk] at h0
+    simp only [Option.some.injEq] at h0
+    subst h0
+    rw [hk'] at h1
+    simp only [Option.some.injEq] at h1
+    subst h1
+    cases v with
+    | none => exact absurd i3 hne
+    | some val => exact ⟨c, val, w, t, rm, hev, i3, i1⟩
+  | softDelete c e0 _ h0 h1 =>
+    rw [hk] at h0
+    simp only [Option.some.injEq] at h0
+    subst h0
+    rw [hk'] at h1
+    simp only [Option.some.injEq] at h1
+    subst h1
+    exact absurd rfl hne
+  | workerDelete hh q _ _ _ h1 => rw [h1] at hk'; cases hk'
+  | evicted id hash w k0 v hh q _ _ _ _ h1 => rw [h1] at hk'; cases hk'
+  | inserted id hash w v hh q entry _ _ _ h0 => rw [hk] at h0; cases h0
+  | swept evs _ _ h1 => rw [h1] at hk'; cases hk'
+  | shutdown c _ _ h1 => rw [h1] at hk'; cases hk'
+  | resumedShutdown c _ _ h1 => rw [h1] at hk'; cases hk'
+
+/-- in particular a put executed by the worker never overwrites: it is answered `KeyAlreadyExists` and the state is
+    unchanged (C07) -/
+theorem C02_worker_put_never_overwrites (s : State) (id hash k v : Nat) (w : Int) (ttl : Option Nat) (o : Oracle)
+    (e : Entry) (hk : s.store.get? k = some e) :
+    workerPut s id hash w k v ttl o = .ok (.done s (.rejected .keyAlreadyExists) none [] [], o) :=
+  C07_worker_recheck s id hash k v w ttl o e hk
+
+/-! ### 5. non-vacuity: concrete histories -/
+
+def c02Init : State :=
+  State.init { maxWeight := 100, shards := 2, cmdCap := 4, poolSize := 1, bufSize := 2, counters := 2 } 5000000000 [1, 2, 3, 4]
+
+def c02O : Oracle := {}
+
+/-- `put_with_weight(1 ↦ 10)` acknowledged, `put_with_weight(2 ↦ 20)` acknowledged -/
+def c02Puts : List (Ev × Oracle) :=
+  [(.putW 0 1 10 5, c02O), (.worker, c02O), (.putW 0 2 20 5, c02O), (.worker, c02O)]
+
+/-- each key reads its own value, never the other's; `multi_get` agrees with `get`; an unwritten key is absent -/
+example :
+    (match runEvents c02Init c02Puts with
+     | .ok s =>
+       (match step s (.get 1) { pool := [0] }, step s (.get 2) { pool := [0] }, step s (.get 3) c02O,
+              step s (.multiGet [2, 3, 1]) { pool := [0, 0] } with
+        | .ok (_, .value v1, _), .ok (_, .value v2, _), .ok (_, .value v3, _), .ok (_, .values vs, _) =>
+          decide (v1 = some 10 ∧ v2 = some 20 ∧ v3 = none ∧ vs = [some 20, none, some 10] ∧
+                  visible s 1 = some 10 ∧ visible s 2 = some 20 ∧ visible s 3 = none ∧ s.shutting = false)
+        | _, _, _, _ => false)
+     | _ => false) = true := by decide
+
+/-- an upsert with a new value has returned (its weight command is still queued): the read returns the new value,
+    the other key is unaffected -/
+example :
+    (match runEvents c02Init (c02Puts ++ [(.upsert 0 1 (some 11) none none false, c02O)]) with
+     | .ok s =>
+       (match step s (.get 1) { pool := [0] }, step s (.get 2) { pool := [0] } with
+        | .ok (_, .value v1, _), .ok (_, .value v2, _) =>
+          decide (v1 = some 11 ∧ v2 = some 20 ∧ s.queue.length = 1)
+        | _, _ => false)
+     | _ => false) = true := by decide
+
+/-- `delete(1)` has returned (not yet executed), then executed: the read returns nothing both times; key 2 stays -/
+example :
+    (match runEvents c02Init (c02Puts ++ [(.delete 0 1, c02O)]),
+           runEvents c02Init (c02Puts ++ [(.delete 0 1, c02O), (.worker, c02O)]) with
+     | .ok s, .ok t =>
+       (match step s (.get 1) c02O, step t (.get 1) c02O, step t (.get 2) { pool := [0] } with
+        | .ok (_, .value v1, _), .ok (_, .value v1', _), .ok (_, .value v2, _) =>
+          decide (v1 = none ∧ v1' = none ∧ v2 = some 20 ∧ (s.store.get? 1).isSome ∧ t.store.get? 1 = none)
+        | _, _, _ => false)
+     | _, _ => false) = true := by decide
+
+/-- the key is put again after the delete: the read returns the NEW value (a new incarnation), not the deleted one -/
+example :
+    (match runEvents c02Init (c02Puts ++ [(.delete 0 1, c02O), (.worker, c02O), (.putW 0 1 12 5, c02O), (.worker, c02O)]) with
+     | .ok s =>
+       (match step s (.get 1) { pool := [0] } with
+        | .ok (_, .value v1, _) => decide (v1 = some 12)
+        | _ => false)
+     | _ => false) = true := by decide
+
+/-- the hypotheses of `C02_only_written_values` are satisfiable: a `ReachW` derivation for the history above, whose
+    ghost history is `[(1, 10), (2, 20)]` -/
+example : ∃ s, runEvents c02Init c02Puts = .ok s ∧ ReachW c02Init.cfg 5000000000 [1, 2, 3, 4] s [(1, 10), (2, 20)] := by
+  refine ⟨_, rfl, ?_⟩
+  have h0 : ReachW c02Init.cfg 5000000000 [1, 2, 3, 4] c02Init [] := ReachW.init
+  have h1 := ReachW.step (ev := .putW 0 1 10 5) (o := c02O) h0 rfl
+  have h2 := ReachW.step (ev := .worker) (o := c02O) h1 rfl
+  have h3 := ReachW.step (ev := .putW 0 2 20 5) (o := c02O) h2 rfl
+  have h4 := ReachW.step (ev := .worker) (o := c02O) h3 rfl
+  exact h4
+
+/-- the hypotheses of `C02_value_stable` are satisfiable: the upsert above changes the value of key 1 from 10 to 11 -/
+example :
+    (match runEvents c02Init c02Puts with
+     | .ok s =>
+       (match step s (.upsert 0 1 (some 11) none none false) c02O with
+        | .ok (s', _, _) =>
+          decide (s.store.get? 1 = some ⟨10, 1, none, false⟩ ∧ s'.store.get? 1 = some ⟨11, 1, none, false⟩)
+        | _ => false)
+     | _ => false) = true := by decide
 
 end Cached
